@@ -121,7 +121,26 @@ def c_nonplain(case, r, m):
     return C16.c_nonplain_send(case, r, m)
 
 
-CLASSIFIERS = {"batch-last-app": c_batch_last_app, "nonplain-send": c_nonplain, "always-seqnum-assign": C16.c_asa}
+def c_acceptor_prelogon(case, r, m):
+    """an acceptor on a file persister sends after a RESTART and before the next inbound Logon: it recovers its
+    numbers only in handle_logon, so it starts again at 1 and re-uses numbers whose records are still stored
+    (outside c17_store_partial: a history with RESTART)."""
+    ops = case.line.split("|")
+    if not ops[0].startswith("START A file"):
+        return False
+    seen_restart = False
+    for op in ops[1:]:
+        if op == "RESTART":
+            seen_restart = True
+        elif seen_restart and op.startswith("IN ") and "0133353d4101" in op:
+            seen_restart = False
+        elif seen_restart and (op.startswith("SEND ") or op.startswith("BATCH ")):
+            return True
+    return False
+
+
+CLASSIFIERS = {"batch-last-app": c_batch_last_app, "nonplain-send": c_nonplain, "always-seqnum-assign": C16.c_asa,
+               "acceptor-prelogon-after-restart": c_acceptor_prelogon}
 
 
 def nontrivial(case, r):
